@@ -1024,8 +1024,15 @@ class OdeSystem(object):
                 else:
                     is_final_step = False
                     dt = self.dt
+                # a step below the spacing of the time axis at t cannot advance t (the loop would never end): take the
+                # smallest one that does
+                while dt != 0 and self.__t[self.counter] + dt == self.__t[self.counter]:
+                    dt = dt * 2
                 new_dt, (dTime, dState) = self.integrator(self.equ_rhs, self.__t[self.counter], self.__y[self.counter],
                                                            self.constants, timestep=dt)
+                if self.__t[self.counter] + dTime == self.__t[self.counter]:
+                    raise etypes.FailedToMeetTolerances(
+                        "The step size required at t={} is smaller than the spacing of the time axis".format(self.__t[self.counter]))
 
                 if self.counter + 1 >= len(self.__y):
                     total_steps = self.__alloc_space_steps(tf - dTime) + 1
